@@ -20,7 +20,7 @@ RULE = (
     "constant of the reference structure) and equal. Non-trivial: always (all fields set); "
     "distinct = hash of the case (structure + value seed)."
     " Float texts use every spelling [+-]?(d+[.d*]|.d+)([eE][+-]?d+)?; decimal-second texts carry 3..6 fraction digits; text fields are blank- or NUL-padded. Stage 'in-place-pairs': two leaders at the same root, one after the other, both judged."
-    " Half of the cases inject a transient I/O error: the 1st, 2nd, 3rd, 5th or 8th read of the leader file fails once with OSError during the open; the open may raise it, but a tree that is returned carries the complete /metadata of the file."
+    " Half of the cases inject a transient I/O error: the 1st, 2nd, 3rd, 5th or 8th read of the leader file fails once with OSError during the open; the open may fail, but a tree that is returned carries the complete /metadata of the file."
 )
 ASSUMPTIONS = [
     "layout/*.json + layout/exposure_*.json (frozen, hand audited) stand in for the JAXA format document",
@@ -81,7 +81,7 @@ def run_case(case):
     spec = common.spec_from(case)
     files, info = product.build_product(spec)
     if case.get("io_error"):
-        # an open during which one read of the leader fails: it may raise that OSError, but a
+        # an open during which one read of the leader fails: it may fail, but a
         # tree that is returned carries the complete /metadata of the file
         with common.open_under_read_fault(files, info["names"]["sar_leader"], case["io_error"], use_cache=False) as (tree, err, consumed):
             if err is not None:
